@@ -11,6 +11,10 @@ type GenOpts struct {
 	NodeAffinity float64 // probability of node selectors / affinity terms
 	// probability that a pod with a topology spread also prefers (soft node affinity) one domain of the spread key
 	PreferOnSpreadKey float64
+	// probability that an instance type has offerings with a cpu CapacityOverride (several allocatable groups)
+	CapOverride float64
+	// probability that bound pods' events are delivered before their node's (see Scenario.PodEventsFirst)
+	PodEventsFirst float64
 	Existing     float64 // probability scale for existing nodes
 	Reserved     bool    // generate reserved offerings and enable the feature gate
 	Limits       float64 // probability that a pool has limits
@@ -50,6 +54,23 @@ func GenITs(r *rand.Rand, o GenOpts) []IT {
 		}
 		if len(it.Offerings) == 0 {
 			it.Offerings = append(it.Offerings, Offering{Zone: "z1", CapacityType: "on-demand", Price: base, Available: true})
+		}
+		if o.CapOverride > 0 && r.Float64() < o.CapOverride {
+			// all offerings of one zone or of one capacity type get a smaller or a larger cpu capacity
+			byZone, what := r.Float64() < 0.5, pick(r, Zones)
+			if !byZone {
+				what = pick(r, capTypes)
+			}
+			ov := cpu / 2
+			if r.Float64() < 0.4 {
+				ov = cpu * 2
+			}
+			for j := range it.Offerings {
+				if (byZone && it.Offerings[j].Zone == what) || (!byZone && it.Offerings[j].CapacityType == what) {
+					v := ov
+					it.Offerings[j].CPUOverride = &v
+				}
+			}
 		}
 		its = append(its, it)
 	}
@@ -381,6 +402,9 @@ func GenScenario(r *rand.Rand, o GenOpts) *Scenario {
 	pools := GenPools(r, its, o)
 	s := &Scenario{ITs: its, Pools: pools, Nodes: GenNodes(r, its, pools, o), DaemonSets: GenDaemonSets(r, its),
 		IgnorePrefs: r.Float64() < 0.2, BestEffortMinVal: r.Float64() < 0.3, Parallelism: pick(r, []int{1, 1, 2, 8}), ReservedCapacity: o.Reserved}
+	if o.PodEventsFirst > 0 {
+		s.PodEventsFirst = r.Float64() < o.PodEventsFirst
+	}
 	n := 1 + r.IntN(o.MaxPods)
 	for i := 0; i < n; i++ {
 		p := GenPod(r, fmt.Sprintf("pod-%d", i), its, pools, o)
